@@ -182,6 +182,8 @@ def impl_records(rec):
                 cur["res"] = f[1]
         elif f[0] == "M":
             cur["msgs"].append(f[1] if len(f) > 1 else "")
+        elif f[0] == "G":
+            cur.setdefault("names", {})[yvlib.unhx(f[1]).decode()] = f[2]
         elif f[0] == "LOAD":
             cur["loads"].append(yvlib.unhx(f[1]).decode())
         elif f[0] == "CS":
@@ -660,6 +662,172 @@ def residue_check(ctx, binary, profile, mods_items, only=None):
     return n
 
 
+# ---- reset == new: every start-up name and every core.yl feature after RESET ----
+HARD_NAMES = ["clock", "type", "print", "Type", "Object", "Nil", "Bool", "Num", "Func", "BuiltIn", "Method", "BuiltInMethod", "String",
+              "Iter", "MapIter", "FilterIter", "Tuple", "Vec", "Range", "HashMap", "Fiber", "Error", "RuntimeError", "AttributeError",
+              "CompileError", "ImportError", "IndexError", "NameError", "TypeError", "ValueError", "StopIter"]
+
+
+def candidate_names():
+    """start-up names: the hard-wired list + what own-c14's translator reads from init_built_in_globals (gen/manifest.json)
+    + the classes core.yl declares (read from the CURRENT core.yl) + the iterator classes of gen/IterFns.v (c18_iter_fns)"""
+    import json
+    import re
+    names = list(HARD_NAMES)
+    try:
+        with open(os.path.join(yvlib.COQ, "gen", "manifest.json")) as fh:
+            man = json.load(fh)
+        names += [n for n, _ in man.get("c14", {}).get("builtin_installs", [])]
+        names += list(man.get("c18_iter_fns", {}).keys())
+    except Exception:
+        pass
+    try:
+        with open(os.path.join(yvlib.REPO, "yarel", "src", "core.yl")) as fh:
+            names += re.findall(r"^\s*class\s+([A-Za-z_][A-Za-z0-9_]*)", fh.read(), re.M)
+    except Exception:
+        pass
+    seen = []
+    for n in names:
+        if n not in seen:
+            seen.append(n)
+    return seen
+
+
+def iter_methods():
+    """core.yl iterator methods listed by own-c18's translator (fallback: the five known ones)"""
+    import json
+    try:
+        with open(os.path.join(yvlib.COQ, "gen", "manifest.json")) as fh:
+            fns = json.load(fh).get("c18_iter_fns", {})
+        return sorted({f["name"] for cl in fns.values() for f in cl})
+    except Exception:
+        return ["iter", "map", "collect", "filter", "reduce", "new", "next"]
+
+
+# one probe per core.yl method / adapter and per family of start-up names; no addresses printed
+FEATURE_PROBES = [
+    "print([1, 2, 3, 4].iter().map(|x| x * 2).collect());",
+    "print([1, 2, 3, 4].iter().filter(|x| x > 2).collect());",
+    "print([1, 2, 3, 4].iter().reduce(|a, x| a + x, 0));",
+    "print([1, 2, 3, 4].iter().map(|x| x + 1).filter(|x| x > 2).map(|x| x * 10).collect());",
+    "print((1, 2, 3).iter().filter(|x| x != 2).collect()); print((0..5).iter().map(|x| x * x).collect());",
+    "print(\"abc\".iter().map(|c| c + c).collect()); print({1: 2}.keys().iter().collect());",
+    "for x in [1, 2, 3].iter().map(|x| x * 3) { print(x); } for y in [1, 2, 3].iter().filter(|x| x > 1) { print(y); }",
+    "var mi = MapIter.new([1, 2].iter(), |x| x + 1); print(type(mi)); print(mi.next()); print(mi.iter().collect());",
+    "var fi = FilterIter.new([1, 2, 3].iter(), |x| x > 1); print(type(fi)); print(fi.next()); print(fi.iter().collect());",
+    "var it = [7].iter(); print(it.next()); var e2 = it.next(); print(type(e2)); print(type(e2) == StopIter); print(e2.derives(Error)); print(type(StopIter.new()));",
+    "try { nil.foo; } catch e { print(type(e)); print(type(e) == AttributeError); } try { zzz; } catch e { print(type(e) == NameError); }",
+    "try { [1][5]; } catch e { print(type(e) == IndexError); } try { 1 + nil; } catch e { print(type(e)); } try { var um = {[1]: 2}; } catch e { print(type(e)); print(type(e) == ValueError); }",
+    "try { throw Error.new(\"x\"); } catch e { print(type(e)); print(e.derives(Error)); } print(RuntimeError.derives(Error)); try { import \"missing\" as q; } catch e { print(type(e) == ImportError); }",
+    "print(type(1)); print(type(\"s\")); print(type(nil)); print(type(true)); print(type([1])); print(type((1, 2))); print(type(0..1)); print(type({}));",
+    "print(type(|| 1)); print(type(print)); print(type([1].push)); print(type(clock()) == Num); print(String.from(12)); print(type(type));",
+    "print(Fiber.new(|| { Fiber.yield(1); return 2; }).call()); #[constructor(new)] class RC { fn m(self) { return 1; } } print(type(RC.new().m)); print(type(RC) == Type);",
+]
+RESET_PRES = [
+    ("nothing", []),
+    ("definitions", ["var g0 = 5; fn f0() { return g0; } #[constructor(new)] class C0 { fn m(self) { return 1; } } import \"good\" as mg;"]),
+    ("shadowed_builtins", ["var Iter = 1; var FilterIter = 2; var print2 = print; var Vec = nil; var StopIter = 3;"]),
+    ("failing_throw", ["var g0 = 5; throw 1;"]),
+    ("failing_class", ["#[derive(print)] class D {}"]),
+    ("failing_import", ["import \"bad\" as mb;"]),
+    ("failing_in_iter", ["[1, 2].iter().map(|x| nil.foo).collect();"]),
+    ("failing_in_fiber", ["Fiber.new(|| { [1].iter().filter(|x| throw 2).collect(); }).call();"]),
+    ("compile_error", ["var = ;"]),
+]
+
+
+def reset_check(ctx, binary, profile, mods_items, only=None):
+    """after RESET (alone, after definitions, after a failing snippet): the SET of main's global names and every start-up name /
+    core.yl feature behave exactly as on a brand-new interpreter"""
+    names = candidate_names()
+    names_item = "NAMES:" + ",".join(hx(n) for n in names + ["g0", "f0", "C0", "mg", "print2", "D", "mb"])
+    probes = ["print(type(%s));" % n for n in names] + FEATURE_PROBES
+    missing = [m for m in iter_methods() if not any(("." + m + "(") in p for p in FEATURE_PROBES)]
+    if missing and "core.yl methods without a probe: %s" % missing not in ctx.notes:
+        ctx.notes.append("core.yl methods without a probe: %s" % missing)
+    pres = RESET_PRES if only is None else [("replay", only)]
+
+    def line(pre, reset):
+        items = [hx(x) for x in pre] + (["RESET"] if reset else ["FRESH"]) + [names_item] + [hx(p) for p in probes]
+        return "replmods - %s %s" % (mods_items, " ".join(items))
+    recs = yvlib.run_harness(binary, [line(pre, True) for _, pre in pres] + [line([], False)], quarantine=True, case_timeout_ms=20000)
+    ref = impl_records(recs[-1])[1:]          # after FRESH: names + probes on a brand-new Vm
+    n = 0
+    for (label, pre), rec in zip(pres, recs[:-1]):
+        got = impl_records(rec)[len(pre) + 1:]
+        n += 1
+        if len(got) != len(ref):
+            ctx.violation("after RESET (%s) the probe run ended early [%s build]" % (label, profile), input=pre + ["RESET", "<probes>"],
+                          raw_reset=pre, profile=profile, expected=len(ref), actual=[readable(fmt_obs(r)) for r in got[-2:]])
+            continue
+        gn, rn = got[0].get("names", {}), ref[0].get("names", {})
+        if gn != rn:
+            diff = sorted(k for k in set(gn) | set(rn) if gn.get(k) != rn.get(k))
+            ctx.violation("after RESET (%s) the set of main's global names differs from a new interpreter's [%s build]" % (label, profile),
+                          input=pre + ["RESET", "<which names are globals of main>"], raw_reset=pre, profile=profile,
+                          expected={k: rn.get(k) for k in diff}, actual={k: gn.get(k) for k in diff})
+        for p, a, b in zip(probes, got[1:], ref[1:]):
+            if fmt_full(a) != fmt_full(b):
+                ctx.violation("after RESET (%s) a start-up name / core library feature behaves differently than on a new interpreter [%s build]" % (label, profile),
+                              input=pre + ["RESET", p], raw_reset=pre, profile=profile, expected=readable(fmt_obs(b)), actual=readable(fmt_obs(a)))
+                break
+    return n * (1 + len(probes))
+
+
+# ---- a failed import must not disturb modules that load later (identity and state of modules) ----
+XMODS = {"flag": "var ready = false;\n",
+         "xb": "import \"flag\" as flag;\nif !flag.ready { throw \"b is not ready\"; }\nvar v = 7;\n",
+         "xa": "print(\"loading a\");\nimport \"xb\" as b;\nvar counter = 0;\nfn bump() { counter = counter + 1; return counter; }\n",
+         "xc": "print(\"loading c\");\nimport \"xa\" as a;\nvar w = a.bump() + 100;\n",
+         "xd": "print(\"loading d\");\nimport \"xb\" as b1;\nimport \"xa\" as a;\nimport \"xb\" as b2;\nvar same = b1 == b2;\n"}
+MODULE_FAILS = [("top", "import \"xb\" as b;"), ("nested_call", "(|| { import \"xb\" as b; })();"),
+                ("fiber", "Fiber.new(|| { import \"xb\" as b; }).call();"), ("in_try_finally", "try { import \"xb\" as b; } finally { print(\"fin\"); }"),
+                ("through_a", "import \"xa\" as a0;"), ("through_c", "import \"xc\" as c0;"), ("twice", "import \"xb\" as b; "),
+                ]
+MODULE_TAILS = [
+    ["import \"xa\" as a; print(a.bump());", "import \"xa\" as a2; print(a2.bump()); print(a2 == a);", "import \"xb\" as b9; print(b9.v); print(b9 == a.b);"],
+    ["import \"xc\" as c; print(c.w);", "import \"xa\" as a; print(a.bump()); import \"xc\" as c2; print(c2 == c); print(c2.a == a);"],
+    ["import \"xd\" as d; print(d.same); print(d.a.bump());", "import \"xa\" as a; print(a.bump()); print(a == d.a); print(a.b == d.b1);"],
+    ["(|| { import \"xa\" as a; print(a.bump()); })();", "Fiber.new(|| { import \"xa\" as a; print(a.bump()); }).call(); import \"xa\" as a3; print(a3.bump());"],
+]
+
+
+def module_check(ctx, binary, profile, mods_items, only=None):
+    """[import flag; <import of xb fails: not ready>; flag.ready = true; tail…] must behave as the same history without the
+    failing snippet: every module is loaded once, one object per module, its state persists"""
+    xm = mods_items + " " + " ".join("%s=%s" % (hx(n), hx(src)) for n, src in XMODS.items())
+    head = "import \"flag\" as flag;"
+    if only is not None:
+        cases = [("replay", only)]
+    else:
+        cases = [("%s/%d" % (fn, i), [head, f] + (["import \"xb\" as bb;"] if fn == "twice" else []) + ["flag.ready = true;"] + t)
+                 for fn, f in MODULE_FAILS for i, t in enumerate(MODULE_TAILS)]
+    a_recs = run_raw(binary, [h for _, h in cases], xm)
+    refs = {}
+    for _, h in cases:
+        k = h.index("flag.ready = true;")
+        refs[tuple(h[k:])] = None
+    keys = sorted(refs)
+    for k, r in zip(keys, run_raw(binary, [[head] + list(k) for k in keys], xm)):
+        refs[k] = r
+    n = 0
+    for (label, h), a in zip(cases, a_recs):
+        n += 1
+        k = h.index("flag.ready = true;")
+        failing = a[1:k]
+        if not failing or not all((r["res"] or "").startswith("err") for r in failing):
+            note = "module family: %r did not fail on this tree" % h[1]
+            if label != "replay" and note not in ctx.notes:
+                ctx.notes.append(note)
+            continue
+        got = [fmt_obs(r) for r in a[k:]]
+        want = [fmt_obs(r) for r in refs[tuple(h[k:])][1:]]
+        if got != want:
+            ctx.violation("after an import that failed uncaught (%s), modules imported by later snippets are not loaded exactly once / lose identity or state [%s build]" % (label, profile),
+                          input=h, raw_modules=h, modules=XMODS, profile=profile, expected=[readable(x) for x in want], actual=[readable(x) for x in got])
+    return n
+
+
 def directed_families(ctx, bins, mods_items):
     """the cheap directed oracles on the implementation alone (both builds); returns the number of harness histories"""
     n = nf = 0
@@ -668,6 +836,8 @@ def directed_families(ctx, bins, mods_items):
         n += 2 * a
         nf += b
         n += residue_check(ctx, binary, profile, mods_items)
+        n += reset_check(ctx, binary, profile, mods_items)
+        n += module_check(ctx, binary, profile, mods_items)
     return n, nf
 
 
@@ -743,6 +913,14 @@ def run(ctx):
                      only=ctx.replay_only["raw"])
         ctx.cov.update({"evaluations": 2, "distinct_nontrivial": 1, "rule": "replay of one raw side-effect history", "samples": [ctx.replay_only["raw"]]})
         return
+    for key, fn in (("raw_reset", reset_check), ("raw_modules", module_check)):
+        if ctx.replay_only and key in ctx.replay_only:
+            mods_items = " ".join("%s=%s" % (hx(n), hx(s)) for n, s in zip(["good", "bad", "syn", "nest"], MOD_SRC))
+            load_msg_table()
+            prof = ctx.replay_only.get("profile", "debug")
+            fn(ctx, bins[prof], prof, mods_items, only=ctx.replay_only[key])
+            ctx.cov.update({"evaluations": 2, "distinct_nontrivial": 1, "rule": "replay of one directed history (%s)" % key, "samples": [ctx.replay_only[key]]})
+            return
     if ctx.replay_only and "raw_residue" in ctx.replay_only:
         mods_items = " ".join("%s=%s" % (hx(n), hx(s)) for n, s in zip(["good", "bad", "syn", "nest"], MOD_SRC))
         load_msg_table()
@@ -766,6 +944,9 @@ def run(ctx):
                 with open(os.path.join(corpus_dir, fn)) as fh:
                     hists.append([tuple(int(x) for x in g.split(" ")) for g in json.load(fh)["wire"].split(";")])
         hists += [gen_history(rng, pool, 8) for _ in range(400 if quick else 8000)]
+        if getattr(ctx, "_search", False):
+            # bounded search: the systematic part was run already; only new random histories (the rng has moved on)
+            hists = [gen_history(rng, pool, 8) for _ in range(2500)]
     models = coq_cases(hists, core, "hist")
     mods_items = next((m for m in models if m), None)
     if mods_items is None:
@@ -782,6 +963,7 @@ def run(ctx):
     sfx = sfx_failing = 0
     if not ctx.replay_only and not getattr(ctx, "_directed_done", False):
         sfx, sfx_failing = directed_families(ctx, bins, mods_items)
+        ctx._directed_done = True
     for profile, binary in bins.items():
         impl = check_histories(ctx, hists, binary, profile, core, mods_items, models)
         impl_by_profile[profile] = impl
@@ -796,7 +978,7 @@ def run(ctx):
             ctx.violation("debug and release builds behave differently on a history", input=describe(h, m) if m else wire(h), wire=wire(h),
                           expected=[readable(fmt_mech(r)) for r in a], actual=[readable(fmt_mech(r)) for r in b])
             break
-    if not ctx.replay_only:
+    if not ctx.replay_only and not getattr(ctx, "_search", False):
         sample = [i for i in range(len(hists)) if models[i] and impl_by_profile["debug"][i]]
         rng.shuffle(sample)
         sample = sample[:(24 if quick else 300)]
@@ -878,22 +1060,22 @@ def run(ctx):
 
 
 def search(ctx):
-    """obligations broken and nothing found: the directed families first (cheap, both builds); only if they find nothing the
-    thorough generators against the Spec"""
+    """obligations broken and nothing found: the directed families first (cheap, both builds, stop at the first violations); only
+    if they find nothing, a BOUNDED number of further random histories against the Spec"""
     bins = {"debug": ctx.harness("debug"), "release": ctx.harness("release")}
     mods_items = " ".join("%s=%s" % (hx(n), hx(s)) for n, s in zip(["good", "bad", "syn", "nest"], MOD_SRC))
-    if load_msg_table():
+    if not getattr(ctx, "_directed_done", False) and load_msg_table():
         directed_families(ctx, bins, mods_items)
         if ctx.violations:
             ctx.violations[:] = ctx.violations[:5]
             return
-    old = ctx.tier
-    ctx.tier = "thorough"
+    # bounded: 2500 further random histories in the quick configuration (about a minute), never the thorough tier
     ctx._directed_done = True
+    ctx._search = True
     keep_b, keep_c = list(ctx.broken), list(ctx.corr_broken)
     try:
         run(ctx)
     finally:
-        ctx.tier = old
+        ctx._search = False
         ctx.broken[:] = keep_b + [b for b in ctx.broken if b not in keep_b]
         ctx.corr_broken[:] = keep_c + [c for c in ctx.corr_broken if c not in keep_c]
